@@ -159,7 +159,10 @@ class Exec:
         if re.match(r'^_\d+$', s):
             if s not in env:
                 raise Unsupported('read of unset local ' + s)
-            return env[s]
+            v = env[s]
+            if isinstance(v, tuple) and v and v[0] == 'owncell':
+                return st.heap[v[1]]
+            return v
         if s.startswith('(') and mir.Interp._match(s, 0) == len(s) - 1:
             inner = s[1:-1].strip()
             if inner.startswith('*'):
@@ -214,6 +217,20 @@ class Exec:
 
     def operand(self, s, env, st):
         s = s.strip()
+        if getattr(self, 'auto_cells', False):
+            # a `&mut local` of a plain value (enum / option / scalar) becomes a heap cell so that writes through the reference
+            # (closure captures, `*r = v`) are seen by later reads of the local
+            m = re.match(r'^&mut (_\d+)$', s)
+            if m and m.group(1) in env:
+                v = env[m.group(1)]
+                if isinstance(v, tuple) and v and v[0] == 'owncell':
+                    return ('cell', v[1])
+                if (isinstance(v, tuple) and v and v[0] in ('enum', 'variant')) or z3.is_expr(v):
+                    st.ncall += 1
+                    nm = 'auto#%d#%s' % (st.ncall, m.group(1))
+                    st.heap[nm] = v
+                    env[m.group(1)] = ('owncell', nm)
+                    return ('cell', nm)
         for pre in ('no_retag copy ', 'copy ', 'move ', '&mut ', '&raw const ', '&raw mut ', '&'):
             if s.startswith(pre):
                 return self.operand(s[len(pre):], env, st)
@@ -302,6 +319,10 @@ class Exec:
                 names.append(k.strip())
                 fields.append(self.operand(v, env, st))
             return ('struct', m.group(1).split('::')[-1], fields, names)
+        # user enums with generic / lifetime arguments: `path::Enum::<'_>::Variant(..)` -> drop the `::<..>` segment
+        s_ng = re.sub(r"::<[^()<>]*>(?=::[A-Z])", '', s)
+        if s_ng != s and (re.match(r'^((?:[A-Za-z_]\w*::)+)([A-Z]\w*)\((.*)\)$', s_ng, re.S) or re.match(r'^[A-Za-z_]\w*(?:::[A-Za-z_]\w*)*::[A-Z]\w*$', s_ng)):
+            s = s_ng
         m = re.match(r'^((?:[A-Za-z_]\w*::)+)([A-Z]\w*)\((.*)\)$', s, re.S)
         if m:
             ty = m.group(1).rstrip(':').split('::')[-1]
@@ -396,6 +417,10 @@ class Exec:
 
     def assign(self, lhs, val, env, st=None):
         if re.match(r'^_\d+$', lhs):
+            cur = env.get(lhs)
+            if isinstance(cur, tuple) and cur and cur[0] == 'owncell' and st is not None:
+                st.heap[cur[1]] = val
+                return
             env[lhs] = val
             return
         m = re.match(r'^\(\*(_\d+)\)$', lhs)
@@ -511,7 +536,7 @@ class Exec:
             return [(st, ('enum', 'ControlFlow', 'Break', [('enum', 'ControlFlow', 'Break', v[3])]))]
         if re.search(r'FromResidual<.*>>::from_residual$', n):
             return [(st, a[0])]
-        m = re.search(r'<(\w+|\{closure@[^}]*\}) as FnMut<.*>>::call_mut$|<(\w+) as FnOnce<.*>>::call_once$', n)
+        m = re.search(r'<(\w+|&?\{closure@[^}]*\}) as FnMut<.*>>::call_mut$|<(\w+|\{closure@[^}]*\}) as FnOnce<.*>>::call_once$|<(\w+|&?\{closure@[^}]*\}) as Fn<.*>>::call$', n)
         if m:
             f = a[0]
             args2 = a[1][1] if isinstance(a[1], tuple) and a[1][0] == 'tuple' else [a[1]]
@@ -874,6 +899,8 @@ class Exec:
                 outs += states
             return outs
         if re.search(r'HashMap::<.*>::is_empty$', n):
+            if isinstance(a[0], Obj) and ('coll', a[0].path) in st.heap:
+                return [(st, z3.BoolVal(len(st.heap[('coll', a[0].path)]) == 0))]       # explicit model: the content is known
             if ('nonempty', a[0].path) in st.facts:
                 return [(st, z3.BoolVal(not st.facts[('nonempty', a[0].path)]))]
             s1, s2 = st, st.copy()
